@@ -31,6 +31,11 @@ ASSUMPTIONS = [
     "is reported as a violation",
     "moving / renaming / re-addressing a remote to the key it already has is an accepted no-op",
     "all dimensions are selector-symbolic except puid (symbolic int, realised by the uid-in-index lookups)",
+    "the alphabet of the attribute an operation changes has one key more than local + max_remotes (a free key exists "
+    "when the stack is full); a foreign stranger varies only in the attribute the operation looks at",
+    "on a FAILING path the harness pins the remaining symbolic inputs to one model value before the engine realises "
+    "the counterexample; the vacuity label 'target-foreign-twin' of step/remove is waived by a concrete probe while "
+    "every such path is a replayed violation",
 ]
 
 UIDS = [1, 2, 3, 4, 5]
@@ -261,7 +266,7 @@ def obligations(tier):
         sz = sizes[op]
         bounds = dict(uids=UIDS[:sz[0]], names=NAMES[:sz[1]], has=HAS[:sz[2]], local="first element of each alphabet",
                       max_remotes=maxn, puid=[0, sz[0]], steps="1 (inductive) from any valid pre-state")
-        out.append(Ob("step/" + op, h, dict(op=op, sizes=sz, maxn=maxn), budget=240 if quick else 2400,
+        out.append(Ob("step/" + op, h, dict(op=op, sizes=sz, maxn=maxn), budget=240 if quick else 3000,
                       covers=cv, bounds=bounds, max_fail_keys=40))
     return out
 
